@@ -186,6 +186,31 @@ trace:
 ''',
 ]
 
+# YAML anchors / aliases / merge keys: one Python object at several places of the tree; the effective
+# text then uses anchors itself.  Oracle only (the tree models have no sharing).
+HAND_ANCHOR = [
+    '''--- !<tag:barectf.org,2020/3/config>
+trace:
+  type:
+    native-byte-order: be
+    data-stream-types:
+      ds:
+        $is-default: true
+        event-record-common-context-field-type: &st
+          class: struct
+          members:
+            - e: {field-type: &en {class: uenum, size: 8, preferred-display-base: oct, alignment: null, mappings: {A: [1, [3, 5]]}}}
+            - f: {field-type: *en}
+        event-record-types:
+          e1: {payload-field-type: *st}
+          e2:
+            specific-context-field-type: *st
+            payload-field-type:
+              <<: *st
+              minimum-alignment: 16
+''',
+]
+
 HAND_ERR = [
     # log level alias that does not exist
     '''--- !<tag:barectf.org,2020/3/config>
@@ -248,6 +273,8 @@ def hand_scenarios():
         res.append({'kind': 'regression-witness', 'major': 3, 'root': O.load_tree(text), 'raw_root': text, 'dirs': []})
     for text in HAND_OK:
         res.append({'kind': 'hand-ok', 'major': 3, 'root': O.load_tree(text), 'raw_root': text, 'dirs': []})
+    for text in HAND_ANCHOR:
+        res.append({'kind': 'hand-anchor', 'major': 3, 'root': O.load_tree(text), 'raw_root': text, 'dirs': [], 'oracle_only': True})
     for text in HAND_ERR:
         res.append({'kind': 'hand-error', 'major': 3, 'root': O.load_tree(text), 'raw_root': text, 'dirs': []})
     return res
@@ -255,12 +282,46 @@ def hand_scenarios():
 
 # ------------------------------------------------------------------ scenarios
 
+def replay_scenarios(ctx):
+    """Scenarios stored in replay files: ./check C11 --replay FILE, and /verif/corpus/C11/*.json (run
+    first on every run).  Format: the `replay` object written by replay_of()."""
+    import json
+    from common import VERIF
+    paths = []
+    cdir = os.path.join(VERIF, 'corpus', 'C11')
+    if os.path.isdir(cdir):
+        paths += [os.path.join(cdir, f) for f in sorted(os.listdir(cdir)) if f.endswith('.json')]
+    if getattr(ctx, 'replay', None):
+        paths.append(ctx.replay)
+    res = []
+    for p in paths:
+        try:
+            with open(p) as f:
+                r = json.load(f)
+            r = r.get('replay', r)
+            text = r['config.yaml']
+            dirs, raw = collections.OrderedDict(), {}
+            for d in r.get('inclusion_directories', []):
+                if not d.startswith('<'):
+                    dirs[d] = OD()
+            for path, ftext in (r.get('files') or {}).items():
+                d, fn = path.split('/', 1)
+                dirs.setdefault(d, OD())[fn] = O.load_tree(ftext)
+                raw[(d, fn)] = ftext
+            major = 3 if E.V3_TAG in text[:400] else 2
+            res.append({'kind': 'replay:' + os.path.basename(p), 'major': major, 'root': O.load_tree(text),
+                        'raw_root': text, 'raw_files': raw, 'dirs': list(dirs.items())})
+        except Exception as exc:  # noqa
+            ctx.notes.append('replay file %s not understood: %s: %s' % (p, type(exc).__name__, exc))
+    return res
+
+
 def build_scenarios(ctx):
     rng = ctx.rng
     g3, g2 = G.DocGen3(rng), G.DocGen2(rng)
     s3, s2 = E.ScenGen(rng, 3), E.ScenGen(rng, 2)
-    scens = hand_scenarios()
-    for i in range(ctx.pick(300, 6000)):
+    scens = replay_scenarios(ctx) + hand_scenarios()
+    for i in range(ctx.pick(300, 2400)):
         root = g3.document()
         dirs = []
         kind = 'doc3'
@@ -268,25 +329,25 @@ def build_scenarios(ctx):
             root, dirs = g3.split(root, max_level=rng.choice([1, 2, 3, 4]), ndirs=rng.choice([1, 2, 3]))
             kind = 'doc3-split'
         scens.append({'kind': kind, 'major': 3, 'root': root, 'dirs': dirs})
-    for i in range(ctx.pick(40, 600)):
+    for i in range(ctx.pick(40, 300)):
         s = s3.include_scenario()
         scens.append({'kind': 'c12-include3', 'major': 3, 'root': s['root'], 'dirs': s['dirs']})
-    for i in range(ctx.pick(30, 400)):
+    for i in range(ctx.pick(30, 200)):
         s = s3.alias_scenario('chain')
         scens.append({'kind': 'c12-alias3', 'major': 3, 'root': s['root'], 'dirs': s['dirs']})
-    for i in range(ctx.pick(5, 60)):
+    for i in range(ctx.pick(5, 40)):
         s = s3.alias_scenario(rng.choice(['cycle', 'undefined']))
         scens.append({'kind': 'c12-alias3-error', 'major': 3, 'root': s['root'], 'dirs': s['dirs']})
-    for i in range(ctx.pick(4, 40)):
+    for i in range(ctx.pick(4, 30)):
         s = rng.choice([s3.cycle_scenario, s3.missing_scenario])()
         scens.append({'kind': 'c12-include3-error', 'major': 3, 'root': s['root'], 'dirs': s['dirs']})
     # barectf 2: oracle only
-    for i in range(ctx.pick(80, 1500)):
+    for i in range(ctx.pick(80, 600)):
         scens.append({'kind': 'doc2', 'major': 2, 'root': g2.document(), 'dirs': []})
-    for i in range(ctx.pick(25, 400)):
+    for i in range(ctx.pick(25, 150)):
         s = s2.include_scenario()
         scens.append({'kind': 'c12-include2', 'major': 2, 'root': s['root'], 'dirs': s['dirs']})
-    for i in range(ctx.pick(20, 300)):
+    for i in range(ctx.pick(20, 120)):
         s = s2.alias_scenario('chain')
         scens.append({'kind': 'c12-alias2', 'major': 2, 'root': s['root'], 'dirs': s['dirs']})
     return scens, (g3, g2, s3, s2)
@@ -362,7 +423,7 @@ def run(ctx):
         if judge(ctx, s, out, stats, reported):
             nvalid += 1
             kinds['valid:%s' % s['kind']] += 1
-        if s['kind'] == 'hand-ok' and out['status'] != 'valid':
+        if s['kind'] in ('hand-ok', 'hand-anchor') and out['status'] != 'valid':
             ctx.corr_broken.append('hand-written valid document rejected by the real code: %s' % out.get('why'))
         if s['kind'] == 'hand-error' and out['status'] != 'invalid':
             ctx.corr_broken.append('hand-written invalid document accepted by the real code')
@@ -380,6 +441,7 @@ def run(ctx):
                 pass
         if judge(ctx, s, out, cstats, reported):
             ncorpus_valid += 1
+    cli = cli_tie(ctx, scens)
     ncases, corr = correspondence(ctx, scens)
     g3, g2, s3, s2 = gens
     spell = {k: v for k, v in sorted(g3.stats.items()) if k.split(':')[0] in ('class', 'base', 'byte-order')}
@@ -411,8 +473,50 @@ def run(ctx):
         'generator_distribution_v2': {k: v for k, v in sorted(g2.stats.items()) if k not in spell2},
         'c12_generator_distribution': {str(m): {k: g.stats[k] for k in sorted(g.stats)} for m, g in ((3, s3), (2, s2))},
         'correspondence': corr,
+        'cli_show_effective_configuration': cli,
         'samples': samples_of(scens),
     })
+
+
+def cli_tie(ctx, scens):
+    """`barectf show-effective-configuration` (the real CLI) prints the API's text; run on its own
+    output it prints the same bytes; `--indent-spaces` changes the text only, not the tree."""
+    from common import sh
+    valid = [s for s in scens if s['out']['status'] == 'valid' and s['out'].get('eff1')]
+    sample = valid[:3] + ctx.rng.sample(valid, min(len(valid), ctx.pick(10, 60)))
+    exe = '/venv/bin/barectf'
+    n = bad = 0
+
+    def one(s):
+        cfg = os.path.join(s['path'], 'config.yaml')
+        inc = []
+        for d, _ in s['dirs']:
+            inc += ['-I', os.path.join(s['path'], d)]
+        rc, out = sh([exe, 'show-effective-configuration'] + inc + [cfg], timeout=120)
+        if rc != 0 or out != s['out']['eff1'] + '\n':
+            return 'CLI output differs from effective_configuration_file (rc %d)' % rc, out
+        p2 = os.path.join(s['path'], 'cli-effective.yaml')
+        with open(p2, 'w') as f:
+            f.write(out)
+        rc, out2 = sh([exe, 'show-effective-configuration', p2], timeout=120)
+        if rc != 0 or out2 != out:
+            return 'CLI run on its own output prints a different document (rc %d)' % rc, out2
+        rc, out4 = sh([exe, 'show-effective-configuration', '--indent-spaces=4', p2], timeout=120)
+        if rc != 0 or not T.same(O.load_tree(out4), O.load_tree(out)):
+            return 'CLI --indent-spaces=4 changes the tree (rc %d)' % rc, out4
+        return None, None
+
+    with ThreadPoolExecutor(max_workers=8) as ex:
+        for s, (err, out) in zip(sample, ex.map(one, sample)):
+            n += 1
+            if err:
+                bad += 1
+                if bad <= 2:
+                    rp = replay_of(s, s['out'])
+                    rp['cli_output'] = (out or '')[-4000:]
+                    ctx.violation('barectf show-effective-configuration: ' + err, rp)
+    return {'documents': n, 'failures': bad,
+            'rule': 'real CLI (/venv/bin/barectf, PYTHONPATH=/repo) stdout == API text + new-line; CLI on its own output: same bytes; --indent-spaces=4: same tree'}
 
 
 def samples_of(scens):
@@ -432,7 +536,7 @@ def correspondence(ctx, scens):
     cases = []
     skipped = collections.Counter()
     for s in scens:
-        if s['major'] != 3:
+        if s['major'] != 3 or s.get('oracle_only'):
             continue
         out = s['out']
         if out['status'] == 'invalid' and out.get('why') != 'cfgerr':
